@@ -40,6 +40,18 @@ TOKENS_BASE = ["and", "or", "not", "in", "is", "empty", "contains", "matches", "
 TOKENS_SPECIAL = [["[", '"', " ", "x", " ", '"', "]"], ["<L>"], ["<N>"], ["<S>"], ["<B>"], ["<0>"], ['"', "<L>", '"'], ['"', "<B>", '"'], ["a", "<L>"], ['"', "/", "<L>", "<N>", '"']]
 
 
+# hand-written sources: forms of the value position (bare words, dotted and indexed selectors as literals), number and near-number
+# spellings, unparenthesised chains of three and more operands
+EXTRA_TEXTS = ['foo == a["b"]', 'foo != a[ `b` ]', 'a["b"] in foo', 'foo contains a.b["c d"]', 'foo == a.b.c', 'foo == a.0', 'a.b in foo', 'foo == a["b"].c["d"]',
+               'foo matches a["b"]', 'foo == a[b]', 'foo == a["b"', 'foo == a.', 'foo == "/a/b"', 'foo == /a/b',
+               'foo == 0x1F', 'foo != -0x10', '(foo == 0xff)', '0x2 in foo', 'foo == 0x', 'foo == 0X1f', 'foo == 1e5', 'foo == 1E-5', 'foo == 1_000', 'foo == 0b1', 'foo == 0o7',
+               'foo == 1.5.2', 'foo == .5', 'foo == 5.', 'foo == +5', 'foo == -', 'foo == -0', 'foo == 00', 'foo == 0.0', 'foo == -1.50', 'foo == 1x', 'foo == 0 ', 'foo == 0)',
+               '(foo == 0)', 'foo == 0a', 'foo == 0.', 'foo == 0.5x', 'foo == 09', 'foo == 0_1', 'foo == -a', 'foo == 0x1F and a == 1', '0 in foo', '0x in foo',
+               'a == 1 and b == 2 and c == 3', 'a == 1 or b == 2 or c == 3', 'a == 1 and b == 2 and c == 3 and d == 4', 'a == 1 or b == 2 and c == 3 or d == 4',
+               'not a == 1 and not b == 2 and c == 3', '(a == 1 and b == 2) and c == 3', 'a == 1 and (b == 2 and c == 3)', 'any a as x { x == 1 and x == 2 and x == 3 }',
+               'a == 1 or b == 2 or c == 3 or d == 4 or e == 5', '(a == 1 or b == 2) or c == 3', 'a is empty and b is empty and c is not empty']
+
+
 # the tokens allowed from the third position on in the thorough tier (3-token sequences over the full alphabet are too many)
 LATER = ["and", "or", "not", "in", "is", "empty", "as", "a", "foo", "1", "1.5", '"a"', "`a`", '"a', "(", ")", "{", "}", "[", "]", ",", ".", "==", "!=", "_"]
 
@@ -199,8 +211,8 @@ def run_peg(chk, tag, world, invariants=(), shapes=True, timeout=3000):
     res = json.load(open(os.path.join(wd, "parse.json")))
     for k in ("language", "steps", "shape", "budget", "samples"):
         res[k] = res.get(k) or []
-    vlib.log("%s: %d inputs %s, %d unmodelled, language mismatches %d, step mismatches %d, shape problems %d, budget problems %d (%d budgeted parses)" % (
-        tag, res["inputs"], res["byacc"], res["unmodelled"], len(res["language"]), len(res["steps"]), len(res["shape"]), len(res["budget"]), res["budgetruns"]))
+    vlib.log("%s: %d inputs %s, %d unmodelled, language mismatches %d, step count / step trace mismatches %d (%d traces compared), shape problems %d, budget problems %d (%d budgeted parses)" % (
+        tag, res["inputs"], res["byacc"], res["unmodelled"], len(res["language"]), len(res["steps"]), res.get("tracescompared", 0), len(res["shape"]), len(res["budget"]), res["budgetruns"]))
     if res["inputs"] == 0:
         raise vlib.Infra("%s: no input was parsed" % tag)
     chk.cov["traces_validated_against_impl"] += res["inputs"]
